@@ -89,7 +89,8 @@ static void do_g1s(vf_case *c) {
 	VF_TRY(th, g1_mul_sim(r, p, bk, q, bm)); if (th) vf_fail(NULL, "g1_mul_sim raised %d", th); else expect_pt("g1_mul_sim", r, &E, 0, NULL);
 	{ g1_t ps[2]; bn_t ks[2]; g1_new(ps[0]); g1_new(ps[1]); bn_new(ks[0]); bn_new(ks[1]); ep_inject(ps[0], &P, REP_AFF, 1); ep_inject(ps[1], &Q, REP_AFF, 1); bn_copy(ks[0], bk); bn_copy(ks[1], bm);
 		vf_reseed(); VF_TRY(th, g1_mul_sim_lot(r, ps, (const bn_t *)ks, 2)); if (th) vf_fail(NULL, "g1_mul_sim_lot raised %d", th); else expect_pt("g1_mul_sim_lot", r, &E, 0, NULL); }
-	if (rpt_eq(&P, &RG)) { ep_inject(q, &Q, REP_AFF, 1); vf_reseed(); VF_TRY(th, g1_mul_sim_gen(r, bk, q, bm)); if (th) vf_fail(NULL, "g1_mul_sim_gen raised %d", th); else expect_pt("g1_mul_sim_gen", r, &E, 0, NULL); }
+	if (rpt_eq(&P, &RG)) { ep_inject(q, &Q, REP_AFF, 1); vf_reseed(); VF_TRY(th, g1_mul_sim_gen(r, bk, q, bm)); if (th) vf_fail(NULL, "g1_mul_sim_gen raised %d", th); else expect_pt("g1_mul_sim_gen", r, &E, 0, NULL);
+		{ rpt O, EK; rpt_init(&O); rpt_init(&EK); rpt_set_inf(&O); rpt_mul(&RC, &EK, &RG, c->v[3]); ep_inject(q, &O, REP_AFF, 1); vf_reseed(); VF_TRY(th, g1_mul_sim_gen(r, bk, q, bm)); if (th) vf_fail(NULL, "g1_mul_sim_gen(Q = identity) raised %d", th); else expect_pt("g1_mul_sim_gen(Q = identity)", r, &EK, 0, NULL); rpt_clear(&O); rpt_clear(&EK); } }
 	rpt_clear(&P); rpt_clear(&Q); rpt_clear(&E); rpt_clear(&T);
 }
 static void do_g2m(vf_case *c) {
@@ -121,7 +122,9 @@ static void do_g2s(vf_case *c) {
 	VF_TRY(th, g2_mul_sim(r, p, bk, q, bm)); if (th) vf_fail(NULL, "g2_mul_sim raised %d", th); else expect_pt2("g2_mul_sim", r, &E, 0, NULL);
 	{ g2_t ps[2]; bn_t ks[2]; g2_new(ps[0]); g2_new(ps[1]); bn_new(ks[0]); bn_new(ks[1]); ep2_inject(ps[0], &P, REP_AFF, 1); ep2_inject(ps[1], &Q, REP_AFF, 1); bn_copy(ks[0], bk); bn_copy(ks[1], bm);
 		vf_reseed(); VF_TRY(th, g2_mul_sim_lot(r, ps, (const bn_t *)ks, 2)); if (th) vf_fail(NULL, "g2_mul_sim_lot raised %d", th); else expect_pt2("g2_mul_sim_lot", r, &E, 0, NULL); }
-	if (rpt2_eq(&P, &RG2)) { ep2_inject(q, &Q, REP_AFF, 1); vf_reseed(); VF_TRY(th, g2_mul_sim_gen(r, bk, q, bm)); if (th) vf_fail(NULL, "g2_mul_sim_gen raised %d", th); else expect_pt2("g2_mul_sim_gen", r, &E, 0, NULL); }
+	if (rpt2_eq(&P, &RG2)) { ep2_inject(q, &Q, REP_AFF, 1); vf_reseed(); VF_TRY(th, g2_mul_sim_gen(r, bk, q, bm)); if (th) vf_fail(NULL, "g2_mul_sim_gen raised %d", th); else expect_pt2("g2_mul_sim_gen", r, &E, 0, NULL);
+		/* the identity as the variable base: [k]G + [m]O = [k]G */
+		{ rpt2 O, EK; rpt2_init(&O); rpt2_init(&EK); O.inf = 1; rpt2_mul(&RC2, &EK, &RG2, c->v[3]); ep2_inject(q, &O, REP_AFF, 1); vf_reseed(); VF_TRY(th, g2_mul_sim_gen(r, bk, q, bm)); if (th) vf_fail(NULL, "g2_mul_sim_gen(Q = identity) raised %d", th); else expect_pt2("g2_mul_sim_gen(Q = identity)", r, &EK, 0, NULL); rpt2_clear(&O); rpt2_clear(&EK); } }
 	rpt2_clear(&P); rpt2_clear(&Q); rpt2_clear(&E); rpt2_clear(&T);
 }
 static void expect_gt(const char *what, const void *got, const relt *exp) {
@@ -139,7 +142,9 @@ static void do_gte(vf_case *c) {
 	gt_put(a, &A); vf_reseed(); VF_TRY(th, gt_exp(r, a, bk)); if (th) vf_fail(NULL, "gt_exp raised %d", th); else expect_gt("gt_exp", r, &E);
 	gt_put(a, &A); vf_reseed(); VF_TRY(th, gt_exp_sec(r, a, bk)); if (th) vf_fail(NULL, "gt_exp_sec raised %d", th); else expect_gt("gt_exp_sec", r, &E);
 	gt_put(a, &A); vf_reseed(); VF_TRY(th, gt_exp(a, a, bk)); if (!th) expect_gt("gt_exp(c==a)", a, &E);
-	if (mpz_sgn(*k) >= 0 && mpz_sizeinbase(*k, 2) <= (size_t)VF_DIGB) { dig_t d = 0; mpz_export(&d, NULL, -1, sizeof(dig_t), 0, 0, *k); gt_put(a, &A); VF_TRY(th, gt_exp_dig(r, a, d)); if (th) vf_fail(NULL, "gt_exp_dig raised %d", th); else expect_gt("gt_exp_dig", r, &E); }
+	if (mpz_sgn(*k) >= 0 && mpz_sizeinbase(*k, 2) <= (size_t)VF_DIGB) { dig_t d = 0; mpz_export(&d, NULL, -1, sizeof(dig_t), 0, 0, *k); gt_put(a, &A); VF_TRY(th, gt_exp_dig(r, a, d)); if (th) vf_fail(NULL, "gt_exp_dig raised %d", th); else expect_gt("gt_exp_dig", r, &E);
+		gt_put(a, &A); VF_TRY(th, gt_exp_dig(a, a, d)); if (th) vf_fail(NULL, "gt_exp_dig(c==a) raised %d", th); else expect_gt("gt_exp_dig(c==a)", a, &E); }
+	gt_put(a, &A); vf_reseed(); VF_TRY(th, gt_exp_sec(a, a, bk)); if (!th) expect_gt("gt_exp_sec(c==a)", a, &E);
 	{ gt_t g; gt_new(g); gt_get_gen(g); relt G; relt_init(&G); gt_get(&G, g); if (relt_eq(&T12, &G, &A)) { VF_TRY(th, gt_exp_gen(r, bk)); if (th) vf_fail(NULL, "gt_exp_gen raised %d", th); else expect_gt("gt_exp_gen", r, &E); } relt_clear(&G); }
 	if (c->n >= 5) { gt_unpack(&C, c->v[3]); gt_ref_pow(&T, &C, c->v[4]); relt_mul(&T12, &E, &E, &T); if (vf_bn_set(bd, c->v[4])) { gt_put(a, &A); gt_put(cc, &C); vf_reseed(); VF_TRY(th, gt_exp_sim(r, a, bk, cc, bd)); if (th) vf_fail(NULL, "gt_exp_sim raised %d", th); else expect_gt("gt_exp_sim", r, &E);
 #if FP_PRIME < 1536
